@@ -294,7 +294,7 @@ BUILTIN = [   # (name, isinstance test, is real class or virtual, {op: behaviour
      {'get': 'GETITEM', 'iterate': 'ITER', 'keys': 'DICTKEYS', 'assign': 'SETITEM', 'delete': 'DELITEM'}),
     ('_AbstractIterable', lambda o: callable(getattr(type(o), '__iter__', None)) and type(o) not in (str, bytes), None,     # the exact types str / bytes only
      {'get': 'GETATTR', 'iterate': 'ITER', 'assign': 'SETATTR', 'delete': 'DELATTR'}),
-    ('_ObjStyleKeys', lambda o: hasattr(o, '__dict__') and hasattr(o.__dict__, 'keys'), None,
+    ('_ObjStyleKeys', lambda o: hasattr(o, '__dict__') and hasattr(o.__dict__, 'keys') and not isinstance(o, (list, tuple, set, frozenset)), None,
      {'get': 'GETATTR', 'iterate': False, 'keys': 'OBJKEYS', 'assign': 'SETATTR', 'delete': 'DELATTR'}),
 ]
 
